@@ -422,12 +422,15 @@ class TFLiteSupportedOperators:
         "Per-axis quantization is only supported for the following op types: {}"
         valid = True
         extra = []
-        if op.type not in cls.per_axis_quant_ops:
+        if op.type in cls.per_axis_quant_ops:
+            # only the weights of these op types can be quantised per axis/channel, not the feature maps
+            tensors = [tens for tens in (op.ifm, op.ifm2, op.ofm) if tens]
+        else:
             tensors = [tens for tens in op.get_ifm_ifm2_weights_ofm() if tens]
-            for tens in tensors:
-                if tens.quantization and tens.quantization.is_per_axis():
-                    valid = False
-                    extra.append(tens.name)
+        for tens in tensors:
+            if tens.quantization and tens.quantization.is_per_axis():
+                valid = False
+                extra.append(tens.name)
         return valid, "The following tensor(s) have per-axis quantization parameters: " + ", ".join(extra)
 
     @classmethod
